@@ -217,8 +217,8 @@ impl<'a> Gen<'a> {
                     v.push(APiece::Text(t));
                 }
                 3 if self.cfg.refs => {
-                    let c = *self.r.pick(&['a', ' ', '\u{e9}', '\u{1d4b3}', '"', '\'', '>', '\t', '\n', 'Z']);
-                    let c = if in_entity && !self.cfg.entity_ws && (c == '\t' || c == '\n') { 'y' } else { c };
+                    let c = *self.r.pick(&['a', ' ', '\u{e9}', '\u{1d4b3}', '"', '\'', '>', '\t', '\n', 'Z', '\r']);
+                    let c = if in_entity && !self.cfg.entity_ws && (c == '\t' || c == '\n' || c == '\r') { 'y' } else { c };
                     v.push(APiece::CharRef(c, self.r.chance(1, 2)));
                 }
                 4 if self.cfg.refs && allow_refs => {
